@@ -179,6 +179,12 @@ def run(prop, seed, tier):
             failures.append({'key': 'build', 'schema': F.Pool.TEXT + ''.join(t for t, _ in structs), 'struct': '-', 'value': '-',
                              'what': str(ex)[:1500]})
             structs = []
+        mod_twin = None
+        if prop == 'C11' and structs:
+            try:
+                mod_twin, _ = lib.compile_python(F.Pool.TEXT + ''.join(t for t, _ in structs), sc, 'apitwin')
+            except lib.CompileError:
+                mod_twin = None
         for txt, st in structs:
             cls = getattr(mod, st.name)
             for _ in range(3 if tier == 'quick' else 8):
@@ -256,6 +262,24 @@ def run(prop, seed, tier):
                     Ad.assign(a, st, vc)
                     if Ad.view(b2, st) != va:
                         fail('copy-alias', txt, [va, vc], 'mutating the source changed the copy')
+                    # a source of another type is rejected and the destination stays as it was -- also a look-alike type
+                    # (the same definition compiled into another module: equal structure, different class)
+                    twin = getattr(mod_twin, st.name, None) if mod_twin is not None else None
+                    foreign = [object(), 5, 'x', cls] + ([twin()] if twin is not None else [])
+                    for src in foreign:
+                        before = (Ad.view(b2, st), b2.encode('<'))
+                        try:
+                            b2.copy_from(src)
+                            fail('copy-foreign-accepted', txt, [va, repr(type(src))], 'copy_from accepted a source of another type (%s)' % type(src).__name__)
+                        except Exception:
+                            pass
+                        try:
+                            after = (Ad.view(b2, st), b2.encode('<'))
+                        except Exception as ex:
+                            after = ('broken', repr(ex))
+                        if after != before:
+                            fail('copy-foreign-changed', txt, [va, repr(type(src))], 'a rejected copy_from (source of type %s) changed the destination: %r'
+                                 % (type(src).__name__, after[0]))
     return {'cases': cases, 'distinct': cases, 'failures': failures, 'domain': DOMAIN,
             'bound': '%d structs x %d histories of <= 12 operations' % (count, 3 if tier == 'quick' else 8)}
 
